@@ -387,7 +387,7 @@ def _consume(trace, make_gen, app, max_events, keep):
             trace.abandoned = (rec.index, how, rec.name)
             if how == 'break':
                 return None
-            if how in ('raise', 'with'):
+            if how in ('raise', 'with', 'with_hold'):
                 raise _AppError('handler failed')
             if how == 'close':
                 # explicit generator.close(): needs a reference by nature
@@ -435,6 +435,20 @@ def _iterate(trace, make_gen, app, max_events, ws, mech, observe=False):
         elif mech == 'with':
             with ws:
                 _consume(trace, make_gen, app, max_events, False)
+        elif mech == 'with_hold':
+            # the generator object outlives the with-block (it is kept in a
+            # list): only WebSocket.__exit__ can release the socket now
+            keep = []
+
+            def make_and_keep():
+                g = make_gen()
+                keep.append(g)
+                return g
+            try:
+                with ws:
+                    _consume(trace, make_and_keep, app, max_events, False)
+            finally:
+                trace.kept_generators = keep
         elif mech is not None:
             _consume(trace, make_gen, app, max_events, False)
         else:
@@ -458,6 +472,7 @@ def _iterate(trace, make_gen, app, max_events, ws, mech, observe=False):
     gen = None
     if trace.abandoned is not None or observe:
         observe_release(trace)
+    trace.kept_generators = None
 
 
 def observe_release(trace):
